@@ -130,7 +130,7 @@ func generate(w *mon.W) {
 		do(s)
 	}
 	for _, kind := range gen.WideKinds {
-		for _, n := range append(append([]int{}, gen.WideSizes...), 512, 1000) {
+		for _, n := range append(append([]int{}, gen.WideSizes...), gen.WideSizesBig...) {
 			do(pqlref.Print(gen.Wide(kind, n), pqlref.Layout{Mode: 1}).Src)
 		}
 	}
